@@ -47,6 +47,8 @@ pub struct PartCfg {
     pub shard: u32,
     pub nshards: u32,
     pub journal: Option<PathBuf>,
+    /// cases of this part take long (real searches, processes): shrink with a small budget
+    pub expensive: bool,
 }
 
 #[derive(Clone, Debug, Default, Serialize, Deserialize)]
@@ -184,7 +186,7 @@ where
     let config = Config {
         cases: cfg.cases,
         failure_persistence: None,
-        max_shrink_iters: 4096,
+        max_shrink_iters: if cfg.expensive { 200 } else { 4096 },
         max_global_rejects: 1,
         max_local_rejects: 65_536,
         source_file: None,
@@ -192,7 +194,12 @@ where
     };
     let mut runner = TestRunner::new_with_rng(config, rng_for(cfg));
     let journal = cfg.journal.clone();
+    // once the harness itself is in trouble (watchdog, bad case) stop executing cases: no point in shrinking that
+    let harness_abort: RefCell<Option<String>> = RefCell::new(None);
     let result = runner.run(&strategy, |raw| {
+        if let Some(m) = harness_abort.borrow().as_ref() {
+            return Err(TestCaseError::fail(m.clone()));
+        }
         let case = match catch_unwind(AssertUnwindSafe(|| concretize(&raw))) {
             Ok(c) => c,
             Err(p) => {
@@ -220,6 +227,9 @@ where
             Ok(()) => Ok(()),
             Err(msg) => {
                 ctx.borrow_mut().counting = false;
+                if msg.contains(HARNESS_PREFIX) {
+                    *harness_abort.borrow_mut() = Some(msg.clone());
+                }
                 Err(TestCaseError::fail(msg))
             }
         }
@@ -360,7 +370,7 @@ pub fn run_shard(prop: &Property, tier: Tier, seed: u64, shard: u32, nshards: u3
         if !active {
             continue;
         }
-        let cfg = PartCfg { property: prop.id, part: part.name, tier, cases, seed, shard, nshards, journal: journal.clone() };
+        let cfg = PartCfg { property: prop.id, part: part.name, tier, cases, seed, shard, nshards, journal: journal.clone(), expensive: part.quick > 0 && part.quick <= 2_000 };
         let mut out = (part.run)(&cfg);
         out.supplementary = part.supplementary;
         let failed = out.violation.is_some();
